@@ -48,6 +48,31 @@ type Case struct {
 	// AfterFailedRelease: first another connection is served whose chunked upload breaks off in the middle of a chunk
 	// while its handler has stopped reading (releasing that body stream fails); pooled stream objects carry over.
 	AfterFailedRelease bool `json:"after_failed_release,omitempty"`
+	// WriteTo: the handler consumes the body with ctx.Request.BodyWriteTo(w) where w accepts Stop bytes and then fails
+	// (Stop < 0: never fails) - the API copies the stream and then detaches it from the request
+	WriteTo bool `json:"write_to,omitempty"`
+}
+
+type limitedWriter struct {
+	left int // < 0: unlimited
+	got  []byte
+}
+
+func (w *limitedWriter) Write(p []byte) (int, error) {
+	if w.left < 0 {
+		w.got = append(w.got, p...)
+		return len(p), nil
+	}
+	n := len(p)
+	if n > w.left {
+		n = w.left
+	}
+	w.got = append(w.got, p[:n]...)
+	w.left -= n
+	if n < len(p) {
+		return n, fmt.Errorf("harness: the application's writer fails")
+	}
+	return n, nil
 }
 
 func build(cs Case) (stream []byte, body []byte, firstLen int) {
@@ -115,6 +140,17 @@ func (w *worker) server(maxBody int) *srvh.Server {
 			// probe (or a smuggled request): read whatever body it claims to have
 			b, _ := io.ReadAll(io.LimitReader(r, 1<<20))
 			sn.Body = b
+			return
+		}
+		if cs.WriteTo {
+			lw := &limitedWriter{left: cs.Stop}
+			err := ctx.Request.BodyWriteTo(lw)
+			lg.got, lg.eofAt, lg.reads = lw.got, -1, 1
+			if err == nil {
+				lg.eofAt = len(lw.got)
+				lg.extraRead = "0,EOF"
+			}
+			sn.Body = lg.got
 			return
 		}
 		buf := make([]byte, cs.ReadSize)
@@ -209,6 +245,9 @@ func (w *worker) exec(c *mc.Ctx, cs Case) {
 		}
 		if cs.AfterFailedRelease {
 			enc += "|after-failed-release"
+		}
+		if cs.WriteTo {
+			enc += "|via-BodyWriteTo"
 		}
 		c.Violate(fmt.Sprintf("%s|%s|limit=%s|stop=%s", kind, enc, limit, stopClass(cs)), msg, cs)
 	}
@@ -422,6 +461,11 @@ func cases(thorough bool) []Case {
 								if mb == 0 && seg == "whole" && (rs == 1 || rs == 4096) {
 									cs.AfterFailedRelease = true
 									out = append(out, cs)
+									cs.AfterFailedRelease = false
+								}
+								if mb == 0 && rs == 4096 {
+									cs.WriteTo = true
+									out = append(out, cs)
 								}
 							}
 							// the peer closes inside the message: every truncation point after the header block
@@ -505,6 +549,9 @@ func cases(thorough bool) []Case {
 						for _, mb := range []int{0, n - 1, n} {
 							for _, seg := range []string{"whole", "later"} {
 								out = append(out, Case{Len: n, Chunked: ch != nil, Chunks: ch, Trailer: tr, MaxBody: mb, ReadSize: rs, Stop: stop, Seg: seg})
+								if mb == 0 && rs == 4096 {
+									out = append(out, Case{Len: n, Chunked: ch != nil, Chunks: ch, Trailer: tr, ReadSize: rs, Stop: stop, Seg: seg, WriteTo: true})
+								}
 							}
 							if mb == 0 && !tr {
 								st, _, fl := build(Case{Len: n, Chunked: ch != nil, Chunks: ch})
